@@ -33,8 +33,8 @@ PROFILES = {
     "C09": {"w": {"bad_spawn": 14.0, "lock": 5.0, "unlock": 4.0, "gather": 3.0, "spawn": 1.3}},
     "C10": {"w": {"spawn": 2.0, "cancel_group": 3.0, "cancel_all": 1.5}, "named": 0.5},
     "C11": {"w": {"spawn": 2.0, "flush": 2.0, "new_pool": 12.0, "gather": 4.0}, "pools": [1, 2, 2, 3]},
-    "C12": {"w": {"gate_x": 5.0, "gate_c": 4.0, "flush": 2.5, "gather": 3.0}, "cb": [None, "s", "sx", "ax", "gx", "a", "sT"], "fail": 0.4, "endx": 0.3, "retx": 0.2},
-    "C13": {"w": {"flush": 7.0, "cancel": 2.0, "cancel_group": 1.5}, "cb": ["g", "g", "a", "s", None, "gx"]},
+    "C12": {"w": {"gate_x": 5.0, "gate_c": 4.0, "flush": 2.5, "gather": 3.0}, "cb": [None, "s", "sx", "ax", "gx", "a", "sT"], "fail": 0.4, "endx": 0.3, "retx": 0.2, "iterx": 0.15},
+    "C13": {"w": {"flush": 7.0, "cancel": 2.0, "cancel_group": 1.5}, "cb": ["g", "g", "a", "s", None, "gx"], "iterx": 0.15},
     "C14": {"w": {"stop": 8.0, "cancel": 2.0, "spawn": 1.5}, "simple": 1.0},
 }
 
@@ -65,6 +65,7 @@ class Gen:
         self.endx = self.prof.get("endx", rng.choice([0.0, 0.05, 0.15]))
         self.named = self.prof.get("named", rng.choice([0.0, 0.2, 0.5]))
         self.retx = self.prof.get("retx", rng.choice([0.0, 0.0, 0.1]))
+        self.iterx = self.prof.get("iterx", rng.choice([0.0, 0.0, 0.08]))
         self.label = 0
         self.count = 0
         self.own_iter_cancel = False
@@ -175,7 +176,7 @@ class Gen:
         st["sc"] = [self._script() for _ in range(rng.choice([1, 2, 3]))]
         if rng.random() < self.named:
             st["gn"] = rng.choice(["g1", "g2", "apply-work-group-0", "map-job-group-1", "apply-work-group-1",
-                                   "apply-job-group-1", "starmap-fetch_it-group-0", "start-group-1"])
+                                   "apply-job-group-1", "starmap-fetch_it-group-0", "start-group-1", "", "default"])
         if kind == "apply":
             st["num"] = rng.choice([0, 1, 1, 2, 3, 4, 5, 8])
             st["ash"] = rng.randrange(4)
@@ -188,9 +189,13 @@ class Gen:
             oneshot = rng.choice([0.0, 0.0, 0.5]) if kind == "starmap" else 0.0
             st["elems"] = [1 if rng.random() < badp else (2 if rng.random() < emptyp else (3 if rng.random() < oneshot else 0))
                            for _ in range(n)]
+            if n and rng.random() < self.iterx:
+                st["elems"][rng.randrange(n)] = 4        # the iterable raises when it gets here
             st["nc"] = rng.choice([1, 1, 2, 2, 3, 5])
             if st["fk"] == "sync" and rng.random() < self.fail_rate and n:
                 st["fail"] = sorted(rng.sample(range(n), min(n, rng.choice([1, 2]))))
+        if bad is not None and kind == "apply" and rng.random() < 0.4:
+            st["ash"] = 4            # args given as a one-shot counting iterator (only used for rejected requests)
         if bad == "notcoro":
             st["bad"] = "notcoro"
             st["nck"] = rng.randrange(5)
@@ -202,7 +207,7 @@ class Gen:
         rng = self.rng
         how = rng.choice(["notcoro", "nc0", "dup", "state", "state", "negsize"])
         if how == "negsize":
-            return {"op": "bad_pool", "p": self._pool(sim).idx, "v": rng.choice([-1, -2, -100])}
+            return {"op": "bad_pool", "p": self._pool(sim).idx, "v": rng.choice([-1, -2, -100, -0.5, -0.001])}
         if how == "dup":
             pc = self._pool(sim, "T")
             if pc is None or not pc.live_names:
